@@ -288,10 +288,15 @@ Definition function_outputs_preview (d : fdesc) : res (list (string * option hin
   | Ok p => Ok p
   end.
 
-(* list(inspect.signature(Function.__init__).parameters) *)
+(* ScrapesIO._get_init_keywords: list(inspect.signature(cls.__init__).parameters), then the
+   parameters of cls.run that are not among them (input is passed by keyword to run as well) *)
 Definition init_keywords : list string :=
   ["self"; "args"; "label"; "parent"; "delete_existing_savefiles"; "autoload"; "autorun";
    "checkpoint"; "kwargs"].
+Definition run_keywords : list string :=
+  ["run_data_tree"; "run_parent_trees_too"; "fetch_input"; "check_readiness";
+   "raise_run_exceptions"; "emit_ran_signal"].
+Definition reserved_keywords : list string := init_keywords ++ run_keywords.
 
 Definition input_entry (p : param) : string * (option hint * val) :=
   (p_name p,
@@ -304,7 +309,7 @@ Fixpoint inputs_preview_loop (acc : list (string * (option hint * val))) (ps : l
   match ps with
   | [] => Ok acc
   | p :: r =>
-      if mems (p_name p) init_keywords then Err ValueErr
+      if mems (p_name p) reserved_keywords then Err ValueErr
       else inputs_preview_loop (supd (p_name p) (snd (input_entry p)) acc) r
   end.
 Definition inputs_preview (d : fdesc) := inputs_preview_loop [] (f_params d).
@@ -317,7 +322,7 @@ Inductive runner :=
 | RunToDict                (* InputsToDict *)
 | RunToFrame               (* InputsToDataframe *)
 | RunDataclass (name : string)
-| RunFromList.             (* ListToOutputs *)
+| RunFromList (n : nat).   (* ListToOutputs of length n *)
 
 Inductive kind := KFunction | KFromMany (out : string) | KToMany.
 
@@ -491,12 +496,17 @@ Definition process_run_result (k : kind) (outs : list chan) (v : val) : list cha
       end
   end.
 
-(* what a cache hit returns: Function overrides _outputs_to_run_return, the transformer
-   families inherit Node._outputs_to_run_return = DotDict(outputs.to_value_dict()) *)
+(* what a cache hit returns, _outputs_to_run_return of the three families: the tuple of
+   outputs (or the single one); the value of the one output; the plain dict of the outputs *)
 Definition hit_return (k : kind) (outs : list chan) : val :=
   match k with
   | KFunction => fn_return outs
-  | _ => VMap "DotDict" (value_dict outs)
+  | KFromMany name =>
+      match find (fun c => String.eqb (c_label c) name) outs with
+      | Some c => c_value c
+      | None => VNotData
+      end
+  | KToMany => VMap "dict" (value_dict outs)
   end.
 
 (* InputsToDataframe._on_run: the column dictionary, then DataFrame(df_dict) *)
@@ -553,10 +563,12 @@ Section Machine.
     | RunToDict => Ok (VMap "dict" env)
     | RunToFrame => to_frame (map snd env)
     | RunDataclass name => Ok (VMap name env)
-    | RunFromList =>
+    | RunFromList n =>
         match env with
         | [(_, v)] => match iterate v with
-                      | Ok l => Ok (VMap "dict" (enumerate_items 0 l))
+                      | Ok l => if Nat.eqb (List.length l) n        (* the length check *)
+                                then Ok (VMap "dict" (enumerate_items 0 l))
+                                else Err ValueErr
                       | Err e => Err e
                       end
         | _ => Err TypeErr
@@ -664,7 +676,7 @@ Definition to_list_class (n : nat) : nclass :=
 Definition from_list_class (n : nat) : nclass :=
   {| k_inputs := [("list", (Some (HAtoms [AListT]), VNotData))];
      k_outputs := map (fun i => (numbered "item_" i, None)) (range_from 0 n);
-     k_runner := RunFromList; k_kind := KToMany; k_cache := true; k_factories := [] |}.
+     k_runner := RunFromList n; k_kind := KToMany; k_cache := true; k_factories := [] |}.
 
 Definition to_frame_class (n : nat) (use_cache : bool) : nclass :=
   {| k_inputs := map (fun i => (numbered "row_" i, (Some (HAtoms [ADictT]), VNotData))) (range_from 0 n);
@@ -713,25 +725,20 @@ Definition dataclass_class (d : dcdesc) (use_cache : bool) : res nclass :=
                                   (dc_fields d) |}
   else Err TypeErr.
 
-(* the public constructor functions, with their python signatures:
+(* the public constructor functions, with their python signatures (use_cache is keyword-only
+   in all of them and reaches the class factory; it is not part of the scenarios):
      inputs_to_list(n, /, *node_args, use_cache=True, **node_kwargs)
      list_to_outputs(n, /, *node_args, use_cache=True, **node_kwargs)
      inputs_to_dict(spec, *node_args, class_name_suffix=None, use_cache=True, **node_kwargs)
-     inputs_to_dataframe(n, use_cache=True, *node_args, **node_kwargs)
-     dataclass_node(dataclass, use_cache=True, *node_args, **node_kwargs)
-   In the last two the first positional node argument lands in `use_cache`. *)
-Definition split_use_cache (pos : list val) : bool * list val :=
-  match pos with [] => (true, []) | u :: rest => (truthy u, rest) end.
+     inputs_to_dataframe(n, /, *node_args, use_cache=True, **node_kwargs)
+     dataclass_node(dataclass, /, *node_args, use_cache=True, **node_kwargs) *)
 Definition ctor_to_list (n : nat) pos kw := instantiate (to_list_class n) pos kw.
 Definition ctor_from_list (n : nat) pos kw := instantiate (from_list_class n) pos kw.
 Definition ctor_to_dict (s : dspec) pos kw := instantiate (to_dict_class s) pos kw.
-Definition ctor_to_frame (n : nat) (pos : list val) kw :=
-  let (uc, rest) := split_use_cache pos in instantiate (to_frame_class n uc) rest kw.
-(* dataclass_node calls dataclass_node_factory(dataclass) WITHOUT use_cache: the value that
-   landed there is dropped *)
+Definition ctor_to_frame (n : nat) (pos : list val) kw := instantiate (to_frame_class n true) pos kw.
 Definition ctor_dataclass (d : dcdesc) (pos : list val) kw :=
   match dataclass_class d true with
-  | Ok k => instantiate k (match pos with [] => [] | _ :: rest => rest end) kw
+  | Ok k => instantiate k pos kw
   | Err e => Err e
   end.
 
@@ -775,18 +782,12 @@ Section Reference.
         let env' := override env b in
         (env', if all_data env' then Some (F env') else None)   (* missing argument: TypeError *)
     end.
-  (* a history of calls; [last] = the arguments of the latest call that returned a value, and
-     the flag says whether this call repeats them *)
-  Fixpoint ref_run (env : list (string * val)) (last : option (list (string * val)))
-    (ops : list (list val * list (string * val)))
-    : list (list (string * val) * option val * bool) :=
+  (* a history of calls *)
+  Fixpoint ref_run (env : list (string * val)) (ops : list (list val * list (string * val)))
+    : list (list (string * val) * option val) :=
     match ops with
     | [] => []
-    | (pos, kw) :: r =>
-        let (env', o) := ref_call env pos kw in
-        let rep := match o, last with Some _, Some l => env_eqb env' l | _, _ => false end in
-        let last' := match o with Some _ => Some env' | None => last end in
-        (env', o, rep) :: ref_run env' last' r
+    | (pos, kw) :: r => let (env', o) := ref_call env pos kw in (env', o) :: ref_run env' r
     end.
 End Reference.
 
@@ -853,11 +854,3 @@ Definition oscenario (sem : list (string * val) -> val) (mk : res nclass)
               :: map (fun nx => OL [ores (snd nx); onode (fst nx)]) (calls sem n ops))
       end
   end.
-
-(* the constructor functions whose signature puts `use_cache` before the node arguments *)
-Definition oscenario_frame (n : nat) (pos : list val) (kw : list (string * val))
-  (ops : list (list val * list (string * val))) : obs :=
-  oscenario (fun _ => VNone) (Ok (to_frame_class n true)) (fun _ => ctor_to_frame n pos kw) ops.
-Definition oscenario_dataclass (d : dcdesc) (pos : list val) (kw : list (string * val))
-  (ops : list (list val * list (string * val))) : obs :=
-  oscenario (fun _ => VNone) (dataclass_class d true) (fun _ => ctor_dataclass d pos kw) ops.
